@@ -4,7 +4,7 @@
    [unobserved]/[observed] = the two parts generate_plates / smooth_plates split the screen into;
    [draw] streams are the recorded answers of rng.permutation / rng.choice / heappop / argsort. *)
 From Coq Require Import ZArith List Bool Permutation.
-From Batchie Require Import Lib.Sexp Model.Encode Model.Screen Model.Retro Model.Pairwise Model.Holdout
+From Batchie Require Import Lib.Sexp Model.Encode Model.Screen Model.Retro Model.Pairwise Model.RetroHoldout
   Model.RetroInit Proofs.C11Lib Proofs.C11Gen Proofs.C11Smooth Proofs.C11Select Proofs.C11Holdout Proofs.C11Init.
 Import ListNotations.
 
